@@ -47,7 +47,7 @@ extern size_t hm_last_len;
 extern unsigned hm_nfinal;
 
 /* ---- padalloc.c ------------------------------------------------------------------------- */
-extern size_t pa_lsize[256]; extern unsigned char pa_managed[256]; extern int pa_over; extern unsigned pa_nrealloc;
+extern size_t pa_lsize[1024]; extern unsigned char pa_managed[1024]; extern int pa_over; extern unsigned pa_nrealloc;
 size_t pa_size_of(const void *p); int pa_is_managed(const void *p);
 
 /* ---- zstd stub --------------------------------------------------------------------------- */
